@@ -7,6 +7,7 @@ mod mem;
 mod msgpack_replay;
 mod obs;
 mod scen;
+mod total;
 mod transcode_replay;
 mod val;
 mod rw;
@@ -31,6 +32,8 @@ fn main() {
         "msgpack-replay" => msgpack_replay::run(&arg(2)),
         "depth-worker" => depth::worker(),
         "gen-deep" => depth::write_file(&arg(2), &arg(3), &arg(4), num(5, 10) as usize),
+        "total-gen" => total::gen(&arg(2), &arg(3), num(4, 200)),
+        "total-worker" => total::worker(),
         "record-detect" => detect::record(&arg(2), num(3, 50)),
         "record-mem" => {
             let sizes: Vec<usize> = arg(4).split(',').filter_map(|s| s.parse().ok()).collect();
